@@ -293,6 +293,86 @@ def install(mods):
         cons_check.__module__ = orig_cons_check.__module__
         hier.Consumer.check = cons_check
 
+    # ---- the designated place (C11): a candidate of strategy hierarchical
+    # that was computed for BFS node k of its base changes that place only
+    if 'designated' in mon:
+        from collections import deque
+        from vlib import refmodel as _rm
+        orig_apply_d = hier.apply_simp
+        orig_cc_d = hier.Consumer.check
+
+        def cc_designated(self, task):
+            _STATE['task_nodeid'] = task.nodeid
+            _STATE['task_name_d'] = task.name
+            try:
+                return orig_cc_d(self, task)
+            finally:
+                _STATE['task_nodeid'] = None
+
+        cc_designated.__name__ = 'check'
+        cc_designated.__qualname__ = 'Consumer.check'
+        cc_designated.__module__ = orig_cc_d.__module__
+        hier.Consumer.check = cc_designated
+
+        def replace_at(tree, path, repl):
+            tree = list(tree)
+            if len(path) == 1:
+                if repl is None:
+                    del tree[path[0]]
+                else:
+                    tree[path[0]] = repl
+                return tree
+            tree[path[0]] = replace_at(tree[path[0]], path[1:], repl)
+            return tree
+
+        def apply_designated(exprs, simp):
+            # (the substitution is used up by applying it)
+            subs = getattr(simp, 'substs', None)
+            subs = dict(subs) if isinstance(subs, dict) else None
+            base = _rm.to_nested_list(exprs) \
+                if subs and len(subs) == 1 else None
+            out = orig_apply_d(exprs, simp)
+            try:
+                k = _STATE.get('task_nodeid')
+                if k and isinstance(subs, dict) and len(subs) == 1 and \
+                        not getattr(simp, 'fresh_vars', None):
+                    key, repl = next(iter(subs.items()))
+                    if isinstance(key, int):
+                        q = deque(((i, ), e) for i, e in enumerate(exprs))
+                        n = 0
+                        where = None
+                        while q:
+                            path, nd = q.popleft()
+                            n += 1
+                            if n == k:
+                                where = (path, nd)
+                                break
+                            if not nd.is_leaf():
+                                q.extend((path + (i, ), c)
+                                         for i, c in enumerate(nd.data))
+                        if where is None or where[1].id != key:
+                            emit('designated', located=False)
+                        else:
+                            emit('designated', located=True)
+                            exp = replace_at(
+                                base, where[0],
+                                None if repl is None else _rm.to_nested(repl))
+                            got = _rm.to_nested_list(out) \
+                                if isinstance(out, list) else None
+                            if got != exp:
+                                emit('designated_mismatch',
+                                     name=_STATE.get('task_name_d'),
+                                     nodeid=k, path=list(where[0]),
+                                     base=repr(base)[:1200],
+                                     expected=repr(exp)[:1200],
+                                     got=repr(got)[:1200])
+            except Exception as e:  # noqa
+                emit('monitor_error', where='designated',
+                     error=f'{type(e).__name__}: {e}')
+            return out
+
+        hier.apply_simp = apply_designated
+
     # ---- lexical closure / re-declaration of every hierarchical candidate
     if 'closure' in mon:
         from vlib import refreader, refmodel
